@@ -70,6 +70,19 @@ impl Subpatterns {
                 continue;
             };
 
+            // The source has to stay inside the group it is wrapped in. With unbalanced
+            // parentheses (`x)|(y`) that group closes early and the rest of the source would
+            // leak into every pattern that refers to this subpattern.
+            if let Ok(ast) = regex_syntax::ast::parse::Parser::new().parse(&subpattern.pattern) {
+                if !matches!(ast, regex_syntax::ast::Ast::Group(_)) {
+                    errors.err(
+                        format!("The subpattern `{name}` has unbalanced parentheses"),
+                        pattern.span(),
+                    );
+                    continue;
+                }
+            }
+
             // Test compile the subpattern for better error messages
             // Compile w/ unicode mode, since the top level flag will set it on or off anyway
             match Pattern::compile(
